@@ -1,4 +1,5 @@
 (* Conversions between the extracted inductive numbers and OCaml values; line parsing. Trusted glue. *)
+module ZZ = Z
 open Model
 
 let rec pos_of_int (i : int) : positive =
@@ -17,17 +18,17 @@ let rec nat_of_int (i : int) : nat = if i <= 0 then O else S (nat_of_int (i - 1)
 let rec int_of_nat (x : nat) : int = match x with O -> 0 | S y -> 1 + int_of_nat y
 
 (* Z from/to decimal strings via Zarith-free arithmetic on OCaml ints is not enough for int64/uint64
-   ranges, so go through Z.t of zarith *)
-let rec pos_of_z (z : Z.t) : positive =
-  if Z.equal z Z.one then XH
-  else if Z.is_even z then XO (pos_of_z (Z.shift_right z 1))
-  else XI (pos_of_z (Z.shift_right z 1))
+   ranges, so go through ZZ.t of zarith *)
+let rec pos_of_z (z : ZZ.t) : positive =
+  if ZZ.equal z ZZ.one then XH
+  else if ZZ.is_even z then XO (pos_of_z (ZZ.shift_right z 1))
+  else XI (pos_of_z (ZZ.shift_right z 1))
 
-let rec z_of_pos (p : positive) : Z.t =
+let rec z_of_pos (p : positive) : ZZ.t =
   match p with
-  | XH -> Z.one
-  | XO q -> Z.shift_left (z_of_pos q) 1
-  | XI q -> Z.succ (Z.shift_left (z_of_pos q) 1)
+  | XH -> ZZ.one
+  | XO q -> ZZ.shift_left (z_of_pos q) 1
+  | XI q -> ZZ.succ (ZZ.shift_left (z_of_pos q) 1)
 
 let bytes_of_string (s : string) : n list =
   List.init (String.length s) (fun i -> n_of_int (Char.code s.[i]))
